@@ -207,6 +207,9 @@ func (in *Interp) fmtArg(verb byte, plus bool, a Value) *Term {
 			return ts.Ite(x, ts.Str("true"), ts.Str("false"))
 		case SBV:
 			_, signed, _ := isIntType(v.T)
+			if c := in.pinnedConst(x); c != nil {
+				x = c
+			}
 			if x.IsConst() {
 				var f string
 				switch verb {
@@ -561,6 +564,14 @@ func registerStd(P *Program) {
 			return in.ts.Str(strconv.FormatInt(n, int(b)))
 		}
 		return in.ts.App("itoa", StrSort, args[0].(*Term))
+	})
+	r("strconv.FormatUint", func(in *Interp, caller *frame, fn *ssa.Function, args []Value) Value {
+		t := args[0].(*Term)
+		b, ok2 := cint(args[1])
+		if t.IsConst() && ok2 {
+			return in.ts.Str(strconv.FormatUint(t.u, int(b)))
+		}
+		return in.ts.App("utoa", StrSort, t)
 	})
 	r("strconv.Atoi", func(in *Interp, caller *frame, fn *ssa.Function, args []Value) Value {
 		s := mustStr(args[0], "strconv.Atoi")
